@@ -315,6 +315,54 @@ pub fn check_a(ctx: &Ctx, bytes: &Vec<u8>) -> Result<(), Fail> {
             "lifetime collection answers {:?} / {:?} / {:?} differ from the union {:?} on `{}`",
             got_ldata, got_liter, got_lvec, union_l, src
         );
+        // the same field types spread over an enum's variants (named, tuple, unit) and over a union; wrapped in an
+        // invisible type group; as the bounded type of a where-predicate: always the union of the members
+        {
+            let named: Vec<String> = field_src.iter().enumerate().filter(|(i, _)| i % 2 == 0).map(|(i, t)| format!("f{}: {}", i, t)).collect();
+            let tuple: Vec<String> = field_src.iter().enumerate().filter(|(i, _)| i % 2 == 1).map(|(_, t)| t.clone()).collect();
+            let esrc = format!("enum E {{ A {{ {} }}, B({}), C }}", named.join(", "), tuple.join(", "));
+            let usrc = format!("union U {{ {} }}", field_src.iter().enumerate().map(|(i, t)| format!("f{}: {}", i, t)).collect::<Vec<_>>().join(", "));
+            for (label, text) in [("enum", &esrc), ("union", &usrc)] {
+                let d2: syn::DeriveInput = match syn::parse_str(text) {
+                    Ok(x) => x,
+                    Err(e) => fail!("c19a:harness-render", "generated {} does not parse: {} :: {}", label, e, text),
+                };
+                let r = catch(|| (names_of(d2.data.uses_type_params(&opts, &tset)), lnames_of(d2.data.uses_lifetimes(&opts, &lset))));
+                let (gt, gl) = match r {
+                    Ok(x) => x,
+                    Err(p) => fail!("c19a:panic", "usage analysis panicked on `{}`: {}", text, p),
+                };
+                ensure!(gt == union_t && gl == union_l, format!("c19a:{}-body-not-union:{}", label, ptag), "syn::Data answers {:?}/{:?} on `{}`, union of the members {:?}/{:?}", gt, gl, text, union_t, union_l);
+                if label == "enum" {
+                    if let Ok(ad) = darling_core::ast::Data::<syn::Variant, syn::Field>::try_from(&d2.data) {
+                        let gt = names_of(ad.uses_type_params(&opts, &tset));
+                        let gl = lnames_of(ad.uses_lifetimes(&opts, &lset));
+                        ensure!(gt == union_t && gl == union_l, format!("c19a:ast-data-not-union:{}", ptag), "ast::Data answers {:?}/{:?} on `{}`, union {:?}/{:?}", gt, gl, text, union_t, union_l);
+                    }
+                }
+            }
+            for (i, f) in fields.iter().enumerate() {
+                let want_t = expect(&per_field[i].0, &tq, declare);
+                let want_l = expect(&per_field[i].1, &lq, declare);
+                let grouped = syn::Type::Group(syn::TypeGroup { group_token: Default::default(), elem: Box::new(f.ty.clone()) });
+                let ty = &f.ty;
+                let pred: syn::WherePredicate = syn::parse_quote!(#ty: ::core::marker::Sized);
+                let r = catch(|| {
+                    (
+                        names_of(grouped.uses_type_params(&opts, &tset)),
+                        lnames_of(grouped.uses_lifetimes(&opts, &lset)),
+                        names_of(pred.uses_type_params(&opts, &tset)),
+                        lnames_of(pred.uses_lifetimes(&opts, &lset)),
+                    )
+                });
+                let (a, b, c, dd) = match r {
+                    Ok(x) => x,
+                    Err(p) => fail!("c19a:panic", "usage analysis panicked on a group / predicate around `{}`: {}", field_src[i], p),
+                };
+                ensure!(a == want_t && b == want_l, format!("c19a:type-group:{}", ptag), "invisible group around `{}`: {:?}/{:?}, expected {:?}/{:?}", field_src[i], a, b, want_t, want_l);
+                ensure!(c == want_t && dd == want_l, format!("c19a:where-predicate:{}", ptag), "`{}: Sized` as a predicate: {:?}/{:?}, expected {:?}/{:?}", field_src[i], c, dd, want_t, want_l);
+            }
+        }
         // darling's own body representation answers alike
         if let syn::Data::Struct(s) = &di.data {
             let fs = darling_core::ast::Fields::<syn::Field>::try_from(&s.fields);
